@@ -132,12 +132,50 @@ def job(fn):
     @functools.wraps(fn)
     def wrapper(arg):
         try:
-            return fn(arg)
+            out = fn(arg)
         except Violation as v:
             if v.case is None:
-                v.case = {'job': jsonable(arg)}
-            return ({}, [v.to_json()]) + ((None,) if getattr(fn, '_three', False) else ())
+                v.case = {}
+            out = ({}, [v.to_json()])
+        # every reported case carries the job that produced it, so that `--replay` can re-run exactly that job
+        for v in out[1]:
+            if isinstance(v.get('case'), dict):
+                v['case'].setdefault('rerun', {'fn': fn.__name__, 'arg': jsonable(arg)})
+            elif v.get('case') is None:
+                v['case'] = {'rerun': {'fn': fn.__name__, 'arg': jsonable(arg)}}
+        return out
     return wrapper
+
+
+def tuplify(x):
+    """job arguments use tuples, the data inside dicts (specs, expression trees) uses lists: JSON turned both
+    into lists, so convert lists back to tuples but leave everything inside a dict alone"""
+    if isinstance(x, list):
+        return tuple(tuplify(v) for v in x)
+    return x
+
+
+def rerun(prop, path, module):
+    """generic --replay: re-run the job recorded in the replay file and look for the same violation key"""
+    j = json.load(open(path, encoding='utf-8'))
+    rec = j.get('case', {}).get('rerun')
+    if not rec:
+        print(json.dumps(j, indent=1)[:2000])
+        print('no job recorded in this replay file')
+        return 2
+    out = getattr(module, rec['fn'])(tuplify(rec['arg']))
+    keys = [v['key'] for v in out[1]]
+    if j['key'] in keys:
+        v = next(v for v in out[1] if v['key'] == j['key'])
+        print('reproduced:', v['key'], '-', v['what'])
+        print(f'VIOLATION property={prop} replay={path}')
+        return 1
+    if keys:
+        print('the recorded violation did not reappear, but the job reports:', sorted(set(keys)))
+        print(f'VIOLATION property={prop} replay={path}')
+        return 1
+    print('not reproduced')
+    return 0
 
 
 def rotate(items, seed):
